@@ -1,7 +1,7 @@
 """Hand-made mutation trials for C04/C05 (scratch worktree /tmp/r-exec1 with the proposed fixes applied).
 usage: exec1_mutate.py [M1 M2 ...]"""
 import subprocess, sys, re, os, json
-R = '/tmp/r-exec1'
+R = os.environ.get('EXEC1_R', '/tmp/r-exec1')
 W = os.path.dirname(os.path.dirname(os.path.dirname(os.path.abspath(__file__))))
 FIX = '/tmp/exec1-fix.patch'
 CF = "src/py_gql/utilities/collect_fields.py"
@@ -29,7 +29,7 @@ MUTS = [
  ("M9", "sub-selections taken from the first node only (no merge)", EX, "                        for field in nodes\n                        if field.selection_set", "                        for field in nodes[:1]\n                        if field.selection_set"),
  ("M10", "possible-type check dropped in complete_value", EX, "                if not self.schema.is_possible_type(field_type, runtime_type):", "                if False:"),
  ("M11", "execute_fields in reversed key order", BX, "        for key, field_def, nodes in self._iterate_fields(parent_type, fields):\n            result[key]", "        for key, field_def, nodes in reversed(list(self._iterate_fields(parent_type, fields))):\n            result[key]"),
- ("M12", "resolver error swallowed without an error entry", BX, "        except (CoercionError, ResolverError) as err:\n            self.add_error(err, path, node)\n            return None", "        except (CoercionError, ResolverError) as err:\n            return None"),
+ ("M12", "resolver error swallowed without an error entry", BX, "            except ResolverError as err:\n                self.add_error(err, path, node)\n                return None", "            except ResolverError as err:\n                return None"),
  ("M15", "7b8e151 reverted: BlockingExecutor lets a ResolverError raised while COMPLETING a value escape", BX, "        except ResolverError as err:\n            # Same as `Executor.resolve_field`", "        except ZeroDivisionError as err:\n            # Same as `Executor.resolve_field`"),
  ("M16", "4e87d3d reverted: CoercionError of a directive condition not converted in ResolutionContext.collect_fields", "src/py_gql/execution/wrappers.py", "            except CoercionError as err:\n                # Invalid `@skip`", "            except ZeroDivisionError as err:\n                # Invalid `@skip`"),
  ("M17", "4e87d3d partly reverted: execute() does not catch the ResolverError of the ROOT selection set", "src/py_gql/execution/execute.py", "    except ResolverError as err:\n        # The root selection set itself", "    except ZeroDivisionError as err:\n        # The root selection set itself"),
@@ -45,6 +45,11 @@ MUTS = [
  ("S8", "seeded class: resolve_type memoises __typename__ per Python CLASS of the value (non-dict values)", EX, "            maybe_type = (\n                value.get(\"__typename__\", None)\n                if isinstance(value, dict)\n                else getattr(value, \"__typename__\", None)\n            )", "            if isinstance(value, dict):\n                maybe_type = value.get(\"__typename__\", None)\n            else:\n                _c = self.__dict__.setdefault(\"_runtime_types\", {})\n                if type(value) not in _c:\n                    _c[type(value)] = getattr(value, \"__typename__\", None)\n                maybe_type = _c[type(value)]"),
  ("S9", "seeded class: _same_arguments drops explicit null literals before comparing", "src/py_gql/validation/rules/overlapping_fields_can_be_merged.py", "    if len(args_1) != len(args_2):\n        return False\n\n    s1 = sorted(args_1", "    args_1 = [a for a in args_1 if not isinstance(a.value, _ast.NullValue)]\n    args_2 = [a for a in args_2 if not isinstance(a.value, _ast.NullValue)]\n    if len(args_1) != len(args_2):\n        return False\n\n    s1 = sorted(args_1"),
  ("S10", "seeded class: fragment-pair memo looked up under the sorted key but stored under the unsorted one", "src/py_gql/validation/rules/overlapping_fields_can_be_merged.py", "    ctx.compared_fragment_pairs.add(cache_key)  # type: ignore", "    ctx.compared_fragment_pairs.add(((fragment_1, fragment_2), mutually_exclusive))  # type: ignore"),
+ ("S11", "seeded class: grouped-fields cache keyed on id(selections); single-node keys hand over the document's own list, several nodes a TEMPORARY merged list (id reused after GC)", "src/py_gql/execution/wrappers.py", "        cache_key = parent_type.name, tuple(selections)\n", "        cache_key = parent_type.name, id(selections)\n"),
+ ("S12", "seeded class: is_iterable by isinstance(collections.abc.Iterable) (sequence-protocol iterables rejected)", "src/py_gql/_utils.py", "    try:\n        iter(value)\n    except TypeError:\n        return False\n    else:\n        return strings or not isinstance(value, (str, bytes))", "    import collections.abc as _abc\n    if not isinstance(value, _abc.Iterable):\n        return False\n    return strings or not isinstance(value, (str, bytes))"),
+ ("S12b", "variant: is_iterable iterates strings at list positions", "src/py_gql/_utils.py", "        return strings or not isinstance(value, (str, bytes))", "        return True"),
+ ("S13", "seeded class: add_error keeps a path already set on the error object", "src/py_gql/execution/wrappers.py", "        err.path = path if path is not None else err.path\n", "        if path is not None and not err.path:\n            err.path = path\n"),
+ ("S14", "seeded class: NoFragmentCycles prunes every fragment reached from an acyclic search root", "src/py_gql/validation/rules/__init__.py", "        flat_spreads = [(outer, _search(outer)) for outer in self._spreads]\n", "        flat_spreads = []\n        explored = set()\n        for outer in self._spreads:\n            if outer in explored:\n                continue\n            reach = _search(outer)\n            flat_spreads.append((outer, reach))\n            if outer not in reach:\n                explored.update(reach)\n"),
  ("S3", "seeded class: _find_conflict tests isinstance(parent_1, ObjectType) twice", "src/py_gql/validation/rules/overlapping_fields_can_be_merged.py", "        and isinstance(parent_1, ObjectType)\n        and isinstance(parent_2, ObjectType)", "        and isinstance(parent_1, ObjectType)\n        and isinstance(parent_1, ObjectType)"),
 ]
 
@@ -72,9 +77,16 @@ def _merged_in_place(nodes):
     return merged
 '''
     open(p, 'w').write(txt)
+    if mid == "S11":
+        p2 = os.path.join(R, EX)
+        s2 = open(p2).read()
+        old2 = "                self.collect_fields(\n                    runtime_type,\n                    [\n                        selection\n                        for field in nodes\n                        if field.selection_set\n                        for selection in field.selection_set.selections\n                    ],\n                ),"
+        new2 = "                self.collect_fields(\n                    runtime_type,\n                    nodes[0].selection_set.selections\n                    if len(nodes) == 1 and nodes[0].selection_set\n                    else [\n                        selection\n                        for field in nodes\n                        if field.selection_set\n                        for selection in field.selection_set.selections\n                    ],\n                ),"
+        assert s2.count(old2) == 1, s2.count(old2)
+        open(p2, 'w').write(s2.replace(old2, new2))
     out = []
     for prop in ("C04", "C05"):
-        r = sh('PYGQL_REPO=%s /venv/bin/python harness/check.py %s --tier quick' % (R, prop), cwd=W)
+        r = sh('PYGQL_REPO=%s VERIF_SEED=%s /venv/bin/python harness/check.py %s --tier quick' % (R, os.environ.get('VERIF_SEED', '0'), prop), cwd=W)
         viol = [l for l in r.stdout.splitlines() if l.startswith('VIOLATION')]
         nf = sum('no-failing-input-found' in l for l in viol)
         sigs = []
